@@ -1,7 +1,7 @@
 (* C20 -- `mscript clean DIR` deletes exactly the files directly inside DIR whose extension is `mmm`,
    reports how many it removed, and never deletes or alters anything else.
    Pinned statements only; model in Clean/Model.v (clean_command of src/main.rs with
-   fixes/clean-skip-dirs.diff applied), proofs in Clean/Proofs.v.
+   fixes/clean-skip-dirs.diff and fixes/clean-continues-after-failure.diff applied), proofs in Clean/Proofs.v.
    A directory is the list of its entries (name, kind without following links, content id) in the
    order read_dir yields them; `doomed e` = e is not a directory and Path::extension(name e) = "mmm". *)
 From Coq Require Import Permutation.
@@ -66,6 +66,31 @@ Theorem C20_clean_order_independent : forall es order : list entry, NoDup (map n
                /\ Permutation msgs (map name (filter doomed es)).
 Proof. exact clean_order_independent. Qed.
 Print Assumptions C20_clean_order_independent.
+
+(* a remove_file that FAILS does not stop the sweep (fixes/clean-continues-after-failure.diff: the failure
+   is reported, counted, the loop continues, "Removed n files" is printed, exit 1).  The model's filesystem
+   has one way to make remove_file fail on a listed entry -- EISDIR --, met by the loop with `keep_going`
+   and without the directory test (clean_keep_going_only): for every directory, all non-directories with
+   extension mmm are removed (also those listed after a failure), counted and reported, everything else is
+   left, and the outcome is Cleaned exactly when no removal failed (finish .. 0), Incomplete .. k otherwise.
+   Failures the model's filesystem does not have (EPERM in a sticky directory) are observed on the real
+   binary by vlib/c20.py run_unremovable. *)
+Check keep_going_sweeps_everything : forall es : list entry, NoDup (map name es) ->
+  clean_keep_going_only es =
+  finish (filter spared es) (N.of_nat (length (filter doomed es))) (map name (filter doomed es))
+         (N.of_nat (length (filter stuck es))).
+Theorem C20_keep_going_sweeps_everything : forall es : list entry, NoDup (map name es) ->
+  clean_keep_going_only es =
+  finish (filter spared es) (N.of_nat (length (filter doomed es))) (map name (filter doomed es))
+         (N.of_nat (length (filter stuck es))).
+Proof. exact keep_going_sweeps_everything. Qed.
+Print Assumptions C20_keep_going_sweeps_everything.
+
+Example C20_keep_going_witness :
+  clean_keep_going_only [ {| name := [100; 46; 109; 109; 109]; ekind := KDir; content := 1 |};
+                          {| name := [97; 46; 109; 109; 109]; ekind := KFile; content := 2 |} ]
+  = Incomplete [ {| name := [100; 46; 109; 109; 109]; ekind := KDir; content := 1 |} ] 1 [ [97; 46; 109; 109; 109] ] 1.
+Proof. vm_compute. reflexivity. Qed.
 
 (* the code as found (finding F12, repaired by fixes/clean-skip-dirs.diff): a directory named d.mmm
    makes the loop abort with EISDIR and a bytecode file listed after it survives *)
